@@ -485,3 +485,62 @@ def run(ctx):
     finally:
         for f in ctx.prog.find_fns({"name": "get_account_health_components", "crate": "marginfi", "self_adt": "RiskEngine"}):
             check_full_scan(ctx, "C04.R4", "full-scan/get_account_health_components", f, r"p1\.bank_accounts_with_price", "the health computation sums over every active balance of the account")
+
+
+def _asset_weight_paths(ctx):
+    """C04.R5/R6: the complete, path-sensitive table of the collateral weight handed to calc_value (requirement x e-mode entry x cap discount)."""
+    prog = ctx.prog
+    fs = prog.find_fns({"name": "calc_weighted_asset_value", "crate": "marginfi"})
+    if len(fs) != 1:
+        ctx.missing("C04.R5", "calc_weighted_asset_value")
+        return
+    f = fs[0]
+    cvs = [c for c in f.calls() if c.callee and c.callee["name"] == "calc_value"]
+    if len(cvs) != 1:
+        ctx.missing("C04.R5", "single calc_value call in calc_weighted_asset_value")
+        return
+    cv = cvs[0]
+
+    def short(c):
+        c = c.replace("find_with_tag(p4,p3.emode.emode_tag)", "EM").replace("get_weight(p3.config,p2,BalanceSide::Assets{})", "BW")
+        return re.sub(r"maybe_get_asset_weight_init_discount\(p3,get_price_of_type\(try_get_price_feed\(p1\)\.0,get_oracle_price_type\(p2\),Option::Some\{PriceBias::Low\{\}\},p3\.config\.oracle_max_confidence\)\)", "DISC", c)
+    table = set()
+    for cs, r, st in effect_paths(prog, f, limit=4000, probes={"w": (cv.block, cv.args[3])}):
+        if "?w" not in st:
+            continue
+        key = frozenset(short(c) for c in cs if re.match(r"discr\((EM|DISC|p2)\)@", short(c)))
+        table.add((tuple(sorted(key)), short(st["?w"])))
+    REQ = "discr(p2)@RequirementType"
+    want = {
+        (("discr(EM)@Option == 1", REQ + " == 1", REQ + " notin [0]"), "Option::Some{max(EM.asset_weight_maint,BW)}"),
+        (("discr(EM)@Option == 1", REQ + " == 2", REQ + " notin [0]"), "Option::Some{max(%d,BW)}" % (1 << 48)),
+        (("discr(EM)@Option notin [1]", REQ + " notin [0]"), "Option::Some{BW}"),
+        (("discr(DISC)@Option == 1", "discr(EM)@Option == 1", REQ + " == 0"), "Option::Some{checked_mul(max(EM.asset_weight_init,BW),DISC)}"),
+        (("discr(DISC)@Option notin [1]", "discr(EM)@Option == 1", REQ + " == 0"), "Option::Some{max(EM.asset_weight_init,BW)}"),
+        (("discr(DISC)@Option == 1", "discr(EM)@Option notin [1]", REQ + " == 0"), "Option::Some{checked_mul(BW,DISC)}"),
+        (("discr(DISC)@Option notin [1]", "discr(EM)@Option notin [1]", REQ + " == 0"), "Option::Some{BW}"),
+    }
+    want = {(tuple(sorted(k)), v) for k, v in want}
+    # semantic comparison: by (requirement, entry present, discount present) -> weight
+    def sem(tb):
+        out = {}
+        for k, v in tb:
+            ks = set(k)
+            req = "init" if REQ + " == 0" in ks else ("maint" if REQ + " == 1" in ks else ("equity" if REQ + " == 2" in ks else "non-init"))
+            em = "discr(EM)@Option == 1" in ks
+            di = "discr(DISC)@Option == 1" in ks
+            out.setdefault((req, em, di), set()).add(v)
+        return out
+    ctx.inst("C04.R5", "asset-weight-paths", sem(table) == sem(want),
+             "weight handed to calc_value on every path: max(bank weight, e-mode weight of the requirement) when an entry exists, bank weight otherwise; for Initial only, the result is then multiplied by the collateral-cap discount",
+             sorted("%s -> %s" % kv for kv in sem(table).items() if sem(want).get(kv[0]) != kv[1])[:4] or "7 cases", cv.loc)
+
+
+_run_pre_awp = run
+
+
+def run(ctx):
+    try:
+        _run_pre_awp(ctx)
+    finally:
+        _asset_weight_paths(ctx)
